@@ -108,6 +108,17 @@ def function_renames(facts, nm):
     return glob, per
 
 
+def _tree_rel(path, root):
+    """Path of a source file relative to its tree.  The fact cache is keyed by the *content* of the tree, so the absolute paths inside
+    cached facts are those of whichever root produced them first (a scratch copy that may be gone): cut at the tree's `Lib/` directory
+    instead of trusting `root`."""
+    rp = os.path.relpath(path, root)
+    if not rp.startswith(".."):
+        return rp
+    i = path.rfind("/Lib/")
+    return path[i + 1:] if i >= 0 else rp
+
+
 def global_renames(facts, nm, root):
     ref = nm.get("__globals__", {})
     if not ref:
@@ -116,7 +127,7 @@ def global_renames(facts, nm, root):
     for u, d in facts.items():
         for g in d["globals"]:
             if g.get("is_def") and not g.get("func"):
-                cur.setdefault(g["name"], {"t": g["t"], "file": os.path.relpath(g["file"], root)})
+                cur.setdefault(g["name"], {"t": g["t"], "file": _tree_rel(g["file"], root)})
     gone = [g for g in ref if g not in cur]
     fresh = [f for f in cur if f not in ref]
     ren = {}
